@@ -44,20 +44,26 @@ def cases(d):
     g = gen.G(d, FIELDS, {}, mul_max_w=3)
     nblocks = d.randint(2, 4)
     names = ["c%d" % i for i in range(nblocks)]
-    classes = [{"name": "L0", "fields": copy.deepcopy(FIELDS),
-                "blocks": [{"name": n, "stmts": [g.field_stmt(0) for _ in range(d.randint(1, 2))]} for n in names]}]
+    # every level accepts off=(): block names switched off at the END of the constructor (the SystemVerilog
+    # "relax a constraint in new()" idiom); only the most-derived __init__ acts on it
+    CTOR = {"ctor_params": ["off=()"], "init_extra": ["for _n in off: getattr(self, _n).constraint_mode(False)"]}
+    classes = [dict({"name": "L0", "fields": copy.deepcopy(FIELDS),
+                     "blocks": [{"name": n, "stmts": [g.field_stmt(0) for _ in range(d.randint(1, 2))]} for n in names]}, **CTOR)]
     for lvl in range(1, d.randint(1, 3)):
         over = d.sample(names, d.randint(1, len(names)))
         blocks = [{"name": n, "stmts": [g.field_stmt(0) for _ in range(d.randint(1, 2))]} for n in sorted(over)]
         if d.chance(40):
             blocks.append({"name": "x%d" % lvl, "stmts": [g.field_stmt(0)]})
-        classes.append({"name": "L%d" % lvl, "base": "L%d" % (lvl - 1), "fields": [], "blocks": blocks})
+        classes.append(dict({"name": "L%d" % lvl, "base": "L%d" % (lvl - 1), "fields": [], "blocks": blocks}, **CTOR))
     nlev = len(classes)
     ops = []
     # population: instance = ["new", level, place] place: top | nested | elem
     ninst = 0
     def new_op():
-        return ["new", d.randint(0, nlev - 1), d.choice(["top", "top", "nested", "elem", "elem"]), d.randint(0, 3)]
+        off = []
+        if d.chance(30):
+            off = [d.randint(0, 5) for _ in range(d.randint(1, 2))]
+        return ["new", d.randint(0, nlev - 1), d.choice(["top", "top", "nested", "elem", "elem"]), d.randint(0, 3), off]
     ops.append(new_op())
     ninst = 1
     for _ in range(d.randint(3, 14)):
@@ -130,14 +136,17 @@ def run_case(case):
         for p in rest:      # only one nested slot per holder: the others become list elements
             p.place = "elem"
             elems.append(p)
-        n_cls = ns["L%d" % (nested[0].level if nested else 0)]
-        h = ns["H"](n_cls, [ns["L%d" % e.level] for e in elems])
+        def factory(inst):
+            return lambda: ns["L%d" % inst.level](off=inst.off)
+        n_cls = factory(nested[0]) if nested else ns["L0"]
+        h = ns["H"](n_cls, [factory(e) for e in elems])
         if not nested:
             # the holder's default nested object takes part in h.randomize() too: model it as an implicit instance
             imp = Inst()
             imp.level, imp.place, imp.k = 0, "nested", 0
             imp.blocks = effective_blocks(classes, 0)
             imp.enabled = {n: True for n in imp.blocks}
+            imp.off = ()
             imp.preset = {}
             nested = [imp]
             pending.append(imp)
@@ -166,11 +175,16 @@ def run_case(case):
                 it.level, it.place, it.k = op[1], op[2], op[3]
                 it.blocks = effective_blocks(classes, it.level)
                 it.enabled = {n: True for n in it.blocks}
+                bl = list(it.blocks)
+                it.off = tuple(sorted(set(bl[j % len(bl)] for j in (op[4] if len(op) > 4 else []))))
+                for bn in it.off:
+                    it.enabled[bn] = False
+                    info["ctor_toggles"] = info.get("ctor_toggles", 0) + 1
                 it.preset = {}
                 it.holder = None
                 it.path = None
                 if it.place == "top":
-                    it.obj = ns["L%d" % it.level]()
+                    it.obj = ns["L%d" % it.level](off=it.off)
                     it.obj.k = it.k
                 else:
                     it.obj = None
@@ -273,6 +287,7 @@ def body(case, acc):
     nt = info["toggles"] >= 2 and len(info["toggled_insts"]) >= 2 and info["created_after_toggle"]
     acc.case(case, bool(nt), sample=text_of(case))
     acc.label("probes", info["probes"])
+    acc.label("constructor-time toggles", info.get("ctor_toggles", 0))
     acc.label("levels:%d" % len(case["classes"]))
     for op in case["ops"]:
         acc.label("op:" + op[0] + (":" + op[2] if op[0] == "new" else ""))
